@@ -8,6 +8,7 @@ import (
 	"bufio"
 	"fmt"
 	"io"
+	"os"
 	"os/exec"
 	"strconv"
 	"strings"
@@ -48,6 +49,7 @@ type Solver struct {
 	Log     io.Writer // optional transcript
 	dead    bool
 	timeout int
+	What    string // label of the query in flight (diagnostics)
 }
 
 // NewSolver starts kind ∈ {"z3","z3-new","cvc5"} with a per-query timeout in ms.
@@ -75,6 +77,11 @@ func NewSolver(kind string, timeoutMs int) (*Solver, error) {
 	}
 	s := &Solver{Name: kind, cmd: cmd, in: in, out: bufio.NewReaderSize(out, 1<<16),
 		defined: map[int]bool{}, declard: map[string]bool{}, timeout: timeoutMs}
+	if lf := os.Getenv("GOSYM_SMTLOG"); lf != "" {
+		if f, err := os.OpenFile(fmt.Sprintf("%s.%d", lf, cmd.Process.Pid), os.O_CREATE|os.O_WRONLY|os.O_TRUNC, 0o644); err == nil {
+			s.Log = f
+		}
+	}
 	s.send("(set-option :global-declarations true)")
 	s.send("(set-option :produce-models true)")
 	if kind != "cvc5" {
@@ -194,7 +201,11 @@ func (s *Solver) Check() Verdict {
 	if s.Stats.Errors > 0 {
 		v = Unknown
 	}
-	s.Stats.Seconds += time.Since(t0).Seconds()
+	dt := time.Since(t0).Seconds()
+	s.Stats.Seconds += dt
+	if dt > 1 && SlowQueryLog != nil {
+		SlowQueryLog(dt, s.What)
+	}
 	switch v {
 	case Sat:
 		s.Stats.Sat++
@@ -207,6 +218,9 @@ func (s *Solver) Check() Verdict {
 }
 
 var LastSolverError string
+
+// SlowQueryLog, if set, is called for queries slower than 1 s.
+var SlowQueryLog func(secs float64, what string)
 
 // CheckWith checks the stack plus one extra assertion, leaving the stack unchanged.
 func (s *Solver) CheckWith(t *Term) Verdict {
